@@ -182,3 +182,29 @@ package validate
 //@   requires (t is typeRecord) || (t is typeEntity)
 //@   loop 1
 //@     invariant len(names) == len(te.lub.elements)
+
+// Joining two record types (the branches of an `if`, the members of a set) must not lose an attribute:
+// whatever either operand has, the join has - otherwise `has` on the join is typed False for an
+// attribute one branch does carry, and the branch that relies on its absence is never type-checked
+// (C15). leastUpperBound is used as an opaque, deterministic function here.
+//@ func (Validator) leastUpperBound
+//@   pure
+//@   trusted
+//@ func (Validator) lubRecord
+//@   props C15
+//@   results r, err
+//@   ensures keys_kept: err == nil ==> ((r is typeRecord) && (forall k types.String :: (has(a.attrs, k) || has(b.attrs, k)) ==> has(r.(typeRecord).attrs, k)))
+//@   ensures one_sided_optional: err == nil ==> (forall k types.String :: (has(a.attrs, k) != has(b.attrs, k)) ==> !r.(typeRecord).attrs[k].required)
+//@   ensures both_required: err == nil ==> (forall k types.String :: (has(a.attrs, k) && has(b.attrs, k) && r.(typeRecord).attrs[k].required) ==> (a.attrs[k].required && b.attrs[k].required))
+//@   loop 2
+//@     invariant !isnil(attrs)
+//@     invariant common_kept: forall k types.String :: $done[k] ==> has(attrs, k)
+//@     invariant forall k types.String :: has(attrs, k) ==> ($done[k] && has(a.attrs, k))
+//@     invariant forall k types.String :: (has(attrs, k) && !has(b.attrs, k)) ==> !attrs[k].required
+//@     invariant forall k types.String :: (has(attrs, k) && has(b.attrs, k) && attrs[k].required) ==> (a.attrs[k].required && b.attrs[k].required)
+//@   loop 3
+//@     invariant !isnil(attrs)
+//@     invariant forall k types.String :: (has(a.attrs, k) || $done[k]) ==> has(attrs, k)
+//@     invariant forall k types.String :: (has(attrs, k) && has(a.attrs, k) != has(b.attrs, k)) ==> !attrs[k].required
+//@     invariant forall k types.String :: has(attrs, k) ==> (has(a.attrs, k) || has(b.attrs, k))
+//@     invariant forall k types.String :: (has(attrs, k) && has(a.attrs, k) && has(b.attrs, k) && attrs[k].required) ==> (a.attrs[k].required && b.attrs[k].required)
